@@ -5,6 +5,10 @@
 //! harnesses by that convention. `<tier>` is `q` (quick and thorough) or `t` (thorough).
 //! A `_pr` suffix selects the release-like model (debug assertions off) only, `_pb` both.
 #![allow(dead_code, unused_imports, unused_mut, unused_variables, clippy::all)]
+#![cfg_attr(kani, feature(formatting_options))]
+
+#[cfg(kani)]
+extern crate alloc;
 
 pub mod big;
 #[macro_use]
@@ -17,6 +21,45 @@ macro_rules! harness {
     ($name:ident, $unw:literal, $body:block) => {
         #[cfg_attr(kani, kani::proof)]
         #[cfg_attr(kani, kani::unwind($unw))]
+        pub fn $name() $body
+    };
+}
+
+/// Replacement for `<[T]>::copy_from_slice` under Kani (`-Z stubbing`): CBMC 6.11 mis-models a
+/// `memcpy` of symbolic size over elements wider than one byte (minimal probe: `dst[..n]
+/// .copy_from_slice(&src[..n])` on `[u64; 2]` with symbolic `n` "fails" `dst[0] == src[0]`,
+/// natively fine), which gives spurious, non-reproducing counterexamples in the word-aligned
+/// arm of `Bvf::copy_range` for u16/u32/u64 words. Element-wise copy, same panic condition.
+#[cfg(kani)]
+pub fn copy_from_slice_model<T: Copy>(dst: &mut [T], src: &[T]) {
+    assert!(dst.len() == src.len(), "copy_from_slice: source and destination lengths differ");
+    let mut i = 0;
+    while i < dst.len() {
+        dst[i] = src[i];
+        i += 1;
+    }
+}
+
+/// `harness!` with `<[T]>::copy_from_slice` replaced by `copy_from_slice_model` (the property's
+/// meta file must say `"needs_stubbing": true` so that the driver passes `-Z stubbing`).
+#[macro_export]
+macro_rules! harness_cfs {
+    ($name:ident, $unw:literal, $body:block) => {
+        #[cfg_attr(kani, kani::proof)]
+        #[cfg_attr(kani, kani::unwind($unw))]
+        #[cfg_attr(kani, kani::stub(<[u64]>::copy_from_slice, $crate::copy_from_slice_model))]
+        pub fn $name() $body
+    };
+}
+
+/// Must-panic variant of `harness_cfs!`.
+#[macro_export]
+macro_rules! harness_mp_cfs {
+    ($name:ident, $unw:literal, $body:block) => {
+        #[cfg_attr(kani, kani::proof)]
+        #[cfg_attr(kani, kani::unwind($unw))]
+        #[cfg_attr(kani, kani::should_panic)]
+        #[cfg_attr(kani, kani::stub(<[u64]>::copy_from_slice, $crate::copy_from_slice_model))]
         pub fn $name() $body
     };
 }
